@@ -557,6 +557,36 @@ def rule5_growth(ctx):
                 ctx.ob('C19.5', '%s: copy granularity equals allocation granularity' % f.name, ok,
                        'copying old_count * sizeof(pointer) instead of old_count * sizeof(element) keeps only a prefix of the array',
                        loc=mc.loc, detail='alloc %s ; copy %s' % (expr_str(f, dst[0].args[0]), expr_str(f, mc.args[2])))
+                # the grown array and its new capacity replace the old ones in the owning structure
+                if ok and E:
+                    srcl = [f.insts[k] for k in f.sources(mc.args[1]) if k in f.insts and f.insts[k].op == 'load']
+                    # the capacity is the field the growth decision compares with the request
+                    capl = []
+                    for ic in f.order:
+                        if ic.op == 'icmp' and any(f.edge_dominates(br.block.id, sx, dst[0]) for br in f.users(ic.id)
+                                                   if br.op == 'br' and 'cond' in br.d for sx in (br.d['t'], br.d['f'])):
+                            for o in ic.ops:
+                                li = f.get(f.strip(o)) if isinstance(o, str) else None
+                                if li is not None and li.op == 'load' and f.field(li) and srcl and \
+                                        f.field(li).split('.')[0] == f.field(srcl[0]).split('.')[0] and li not in capl:
+                                    capl.append(li)
+                    capl = capl[:1] if len(set(f.field(x) for x in capl)) == 1 else capl
+                    okp = okc2 = False
+                    if len(srcl) == 1 and len(capl) == 1:
+                        fa, fc = f.field(srcl[0]), f.field(capl[0])
+                        ps_ = [st for st in f.stores_to(fa) if same_value(f, st.ops[0], dst[0].id)]
+                        okp = bool(ps_) and f.always_passes(dst[0], ps_)
+                        cs_ = []
+                        for st in f.stores_to(fc):
+                            sv = affine(f, st.ops[0])
+                            if all(al.get(k, 0) == E * sv.get(k, 0) for k in set(al) | set(sv)):
+                                cs_.append(st)
+                        okc2 = bool(cs_) and f.always_passes(dst[0], cs_)
+                        ctx.ob('C19.5', '%s: the grown array replaces the old one' % f.name, okp, '%s = new array on every path' % fa,
+                               loc=mc.loc)
+                        ctx.ob('C19.5', '%s: the capacity field is updated to the allocated count' % f.name, okc2,
+                               '%s = new count: a stale capacity makes the next push believe the array is still full (or still large '
+                               'enough)' % fc, loc=mc.loc)
     ctx.ob('C19.5', 'array growth sites found', n >= 2, 'dr_event_queue_ensure and the pruning stack', loc='src/profiler')
     c = ctx.ssa('chronological.c', area='profiler')
     en = ctx.need_fn(c, 'dr_event_queue_ensure')
@@ -634,7 +664,7 @@ def rule5_growth(ctx):
             if len(nl) == 1 and a_[nl[0]] == 1 and a_.get('', 0) == -1 and dec and dq.dominates_f(x, dec[0]):
                 okm = True
     ctx.ob('C19.5', 'deq moves the last element to the root before shrinking', okm, 'events[0] = events[n - 1]; n--', loc=dq.loc)
-    ctx.floor('C19.5', 10)
+    ctx.floor('C19.5', 14)
 
 
 DUMP = 'src/profiler/dr_dump.c'
@@ -680,6 +710,10 @@ MUTANTS = [
      'edits': [('src/profiler/chronological.c', "\t}\n      }\n      break;\n    }\n    default:", "\t}\n      }\n      continue;\n    }\n    default:")]},
     {'name': 'replay: ready counts indexed by the source node', 'expect': 'C19.7',
      'edits': [('src/profiler/chronological.c', "    ready_count[G->E[i].v]++;", "    ready_count[G->E[i].u]++;")]},
+    {'name': 'pruning stack keeps its old capacity after growing (sweep M0101)', 'expect': 'C19.5',
+     'edits': [('src/profiler/dag_recorder_inl.h', "\tS->entries = new_entries;\n\tS->sz = new_sz;", "\tS->entries = new_entries;")]},
+    {'name': 'event queue keeps the old array after growing', 'expect': 'C19.5',
+     'edits': [('src/profiler/chronological.c', "    q->events = evts;\n    q->sz = new_sz;", "    q->sz = new_sz;")]},
     {'name': 'enq does not count the new event (sweep M0046)', 'expect': 'C19.5',
      'edits': [('src/profiler/chronological.c', "  q->events[q->n] = evt;\n  q->n++;\n  dr_event_queue_heapify_up(q);", "  q->events[q->n] = evt;\n  dr_event_queue_heapify_up(q);")]},
     {'name': 'enq leaves the heap unordered (sweep M0047)', 'expect': 'C19.5',
